@@ -244,6 +244,9 @@ def judge_sheet(sh, al, rules, res, text, nodes, reversed_res=None):
                 got, want = got_row[e], want_row[e]
                 bad = got & ~want if judge_sound else 0
                 if bad:
+                    culprits = [sel.complex_text(cx) for cx in new if u.match_all([cx])[e] & bad]
+                    facts = dict(facts, unsound_members=culprits,
+                                 every_unsound_member_mixes_next_and_following_sibling=bool(culprits) and all(" + " in c and " ~ " in c for c in culprits))
                     sh.violation("unsound:" + h, "rule %d `%s` was rewritten to `%s`, which matches element #%d of %s although the original does not even when extenders are credited with their targets\n%s" % (
                         i, r["sel"], sel.to_text(new), e, u.witness(bad), text), rp, dict(facts, rule=i, rewritten=sel.to_text(new), dom=u.witness(bad)))
                     return
